@@ -1,10 +1,12 @@
 import Qryn.LogQL.Planner
+import Qryn.Prom.Bits
 /-! The statements of the Prometheus remote-read path as `Sel` terms: model of
     reader/promql/transpiler: `TranspileLabelMatchers` (transpiler.go: `InitClickhousePlanner.Process`, `fingerprintsQuery`
     → the LogQL `StreamSelectPlanner`, `processHints`) and `GetLabelMatchersDownsampleRequest`
     (transpilerDownsample.go: `InitDownsamplePlanner`, `StreamSelectCombiner`, `DownsampleHintsPlanner`).
-    The matcher list is the one handed to `NewStreamSelectPlanner` (regular expressions already anchored, on both
-    paths since `fix: PromQL regular-expression matchers are anchored on the down-sampling path too`). Column texts follow the Go format strings; C13 ties FROM / PREWHERE / WHERE / WITH of these terms to the
+    The matcher list is the one `fingerprintsQuery` asks the label index for (regular expressions already anchored, on both
+    paths since `fix: PromQL regular-expression matchers are anchored on the down-sampling path too`; a matcher that accepts
+    the empty value already inverted, its `required` bit clear, since `fix: a PromQL matcher that accepts the empty value …`). Column texts follow the Go format strings; C13 ties FROM / PREWHERE / WHERE / WITH of these terms to the
     real statements (stream `model-prom`), which is what confinement reads. -/
 namespace Qryn.Prom
 open Qryn Qryn.Sql Qryn.LogQL
@@ -37,9 +39,20 @@ def initRaw (c : Ctx) : Sel :=
     (some (and_ [ge (.raw "samples.timestamp_ns") (.int c.fromNs), le (.raw "samples.timestamp_ns") (.int c.toNs), getTypes c]))
     [] none [.orderBy (.raw "fingerprint") .asc, .orderBy (.raw "samples.timestamp_ns") .asc] (limitOf c)
 
+/-- `fingerprintsQuery` over the matchers asked of the index and their `required` bits: with every bit required (and a
+    matcher at all) the shared `StreamSelectPlanner` (`LogQL.streamSelect`, the same term — `fpSel_all_required`),
+    otherwise `optionalLabelsQuery`: the OR only if some bit is required, HAVING against the `int64` of the required bits -/
+def fpSel (c : Ctx) (ms : List Matcher) (req : List Bool) : Sel :=
+  let clauses := ms.map matcherClause
+  let r := Bits.requiredConst req
+  .mk [] false [.raw "fingerprint"] (some (.raw c.ginTable)) [] none
+    (some (and_ ([ge (.raw "date") (.str (Time.formatFromDate c.fromNs)), getTypes c] ++ (if r != 0 then [or_ clauses] else []))))
+    [.raw "fingerprint"]
+    (if clauses.isEmpty then none else some (and_ [eq (.bitSetAnd clauses) (.int r)])) [] none
+
 /-- `query.AddWith(fp_sel)`, `AndWhere(<col> IN fp_sel)` -/
-def withFp (c : Ctx) (ms : List Matcher) (col : String) (main : Sel) : Sel :=
-  (main.with_ [(.named "fp_sel", streamSelect c ms)]).andWhere [.isIn (.raw col) [.withRef (.named "fp_sel")]]
+def withFp (c : Ctx) (ms : List Matcher) (req : List Bool) (col : String) (main : Sel) : Sel :=
+  (main.with_ [(.named "fp_sel", fpSel c ms req)]).andWhere [.isIn (.raw col) [.withRef (.named "fp_sel")]]
 
 /-- the step filter both hint planners add for range functions whose step exceeds the range -/
 def stepFilter (col : String) (step : Int) (cmp : Expr → Expr → Expr) (bound : Int) : Expr :=
@@ -62,8 +75,8 @@ def processHints (h : Hints) (q : Sel) : Sel :=
   else q1
 
 /-- **`TranspileLabelMatchers`** -/
-def transpileRaw (c : Ctx) (h : Hints) (ms : List Matcher) : Sel :=
-  let q := withFp c ms "samples.fingerprint" (initRaw c)
+def transpileRaw (c : Ctx) (h : Hints) (ms : List Matcher) (req : List Bool) : Sel :=
+  let q := withFp c ms req "samples.fingerprint" (initRaw c)
   if h.stepMs = 0 then q else processHints h q
 
 /-- `InitDownsamplePlanner.Process` -/
@@ -102,7 +115,7 @@ def downHints (h : Hints) (q : Sel) : Sel :=
         (simpleCol ("intDiv(samples.timestamp_ns, " ++ toString h.stepMs ++ " * 1000000) * " ++ toString h.stepMs ++ " - 1") "timestamp_ms"))
 
 /-- **`GetLabelMatchersDownsampleRequest`** -/
-def transpileDown (c : Ctx) (m15 : String) (h : Hints) (ms : List Matcher) : Sel :=
-  downHints h (withFp c ms "fingerprint" (initDown c m15))
+def transpileDown (c : Ctx) (m15 : String) (h : Hints) (ms : List Matcher) (req : List Bool) : Sel :=
+  downHints h (withFp c ms req "fingerprint" (initDown c m15))
 
 end Qryn.Prom
